@@ -22,7 +22,8 @@ def main():
 
     def fake_sleep(seconds):
         ms = seconds * 1000.0
-        out.append("D:%d" % int(round(ms)))
+        # the exact host delay (the device rounds to whole milliseconds; the comparison allows < 1 ms per delay, as the property does)
+        out.append("D:%d" % int(ms) if float(ms) == int(ms) else "D:%s" % repr(round(ms, 4)))
     time.sleep = fake_sleep
     import Reduino.Communication  # noqa: F401
     SM = sys.modules["Reduino.Communication.SerialMonitor"]
